@@ -14,6 +14,7 @@ import (
 	govtypes "github.com/cosmos/cosmos-sdk/x/gov/types"
 	"github.com/ethereum/go-ethereum/common"
 	gethtypes "github.com/ethereum/go-ethereum/core/types"
+	abci "github.com/tendermint/tendermint/abci/types"
 
 	"github.com/teleport-network/teleport/app"
 	"github.com/teleport-network/teleport/syscontracts"
@@ -75,9 +76,44 @@ type scen struct {
 
 func (s *scen) kind(k string) { s.kinds[k]++ }
 
-// runScenario builds a 2-chain world, attaches the tracer and performs `steps` tape-driven steps.
-// It returns the trace (one line per ABCI response of every chain) and the message-kind histogram.
-func runScenario(ch Chooser, steps int) ([]string, map[string]int) {
+// nodeProfile is how the node replaying a script behaves OUTSIDE block processing; none of it may change a response.
+type nodeProfile struct {
+	// RestartEvery > 0: the process of every chain stops and starts again (new application object over the same database)
+	// after each commit whose ordinal, plus RestartOffset, is a multiple of RestartEvery.
+	RestartEvery  int `json:"restart_every"`
+	RestartOffset int `json:"restart_offset"`
+	// Simulate: every transaction is first run through Simulate (gas estimation) and CheckTx (mempool admission), as a node
+	// serving clients does, before it is delivered in the block.
+	Simulate bool `json:"simulate"`
+}
+
+func (p nodeProfile) String() string {
+	return fmt.Sprintf("restartEvery=%d+%d simulate=%v", p.RestartEvery, p.RestartOffset, p.Simulate)
+}
+
+// apply installs the profile on a chain.
+func (p nodeProfile) apply(c *kit.Chain) {
+	if p.RestartEvery > 0 {
+		commits := p.RestartOffset
+		c.AfterCommit = func(c *kit.Chain) {
+			commits++
+			if commits%p.RestartEvery == 0 {
+				c.Restart()
+			}
+		}
+	}
+	if p.Simulate {
+		c.PreDeliver = func(c *kit.Chain, bz []byte) {
+			// outcomes are irrelevant (and recovered by baseapp); only later block responses are compared
+			_, _, _ = c.App.Simulate(bz)
+			c.App.CheckTx(abci.RequestCheckTx{Tx: bz, Type: abci.CheckTxType_New})
+		}
+	}
+}
+
+// runScenario builds a 2-chain world, attaches the tracer and performs `steps` tape-driven steps on nodes of the given
+// profile. It returns the trace (one line per ABCI response of every chain) and the message-kind histogram.
+func runScenario(ch Chooser, steps int, prof nodeProfile) ([]string, map[string]int) {
 	var trace []string
 	s := &scen{ch: ch, kinds: map[string]int{}}
 	seed := []byte{byte(ch.Intn("seed0", 256)), byte(ch.Intn("seed1", 256))}
@@ -97,7 +133,10 @@ func runScenario(ch Chooser, steps int) ([]string, map[string]int) {
 	s.w = bridge.NewWorldOpts(2, seed, bridge.WorldOpts{
 		GenesisMutator: mut,
 		ExtraCoins:     sdk.NewCoins(sdk.NewInt64Coin("acoin", 1_000_000), sdk.NewInt64Coin("bcoin", 1_000_000)),
-		OnChain:        func(c *kit.Chain) { c.Trace = func(l string) { trace = append(trace, l) } },
+		OnChain: func(c *kit.Chain) {
+			c.Trace = func(l string) { trace = append(trace, l) }
+			prof.apply(c)
+		},
 	})
 	w := s.w
 	c0 := w.Chains[0]
@@ -400,7 +439,19 @@ func (s *scen) submitProposal() {
 	c0 := w.Chains[0]
 	var content govtypes.Content
 	var name string
-	switch s.ch.Intn("proposalKind", 8) {
+	switch s.ch.Intn("proposalKind", 10) {
+	case 8, 9:
+		// an ALREADY registered relayer is registered again: same chains, but its address on the other Tendermint chain moves
+		// (acknowledgements naming the old address then stop finding a fee receiver)
+		rel := w.Rels[s.ch.Intn("rel", 2)]
+		ir, _ := c0.App.XIBCKeeper.ClientKeeper.GetRelayer(c0.Ctx(), rel.Acc.String())
+		chains, addrs := append([]string{}, ir.Chains...), append([]string{}, ir.Addresses...)
+		for i, n := range chains {
+			if n == w.Chains[1].ChainID {
+				addrs[i] = fmt.Sprintf("0xmoved%d", s.props)
+			}
+		}
+		content, name = clienttypes.NewRegisterRelayerProposal("t", "d", rel.Acc.String(), chains, addrs), "RegisterRelayer(again)"
 	case 0:
 		content, name = clienttypes.NewRegisterRelayerProposal("t", "d", w.Outsider.Acc.String(), []string{w.Chains[1].ChainID, bscName}, []string{"0x1", "0x2"}), "RegisterRelayer"
 	case 1:
